@@ -4,9 +4,12 @@
 
   * `Doc`       a document catalog with a page tree of arbitrary shape and fan-out (`Node`: page, template,
                 intermediate node with any list of kids) whose objects carry arbitrary object numbers, plus
-                optional entries from the declared menu with well-typed values: rectangles of four numbers,
-                date strings, page-mode / page-layout / tab-order names, name and number trees, a name
-                dictionary, indirect dictionary / stream entries, strings, names, booleans, integers.
+                optional entries with well-typed values for EVERY entry the shipped page, template and catalog
+                types declare (`PageOpts` + `PageExtra`, `CatOpts` + `CatExtra`): rectangles of four numbers,
+                date strings, page-mode / page-layout / tab-order names, name and number trees, the name
+                dictionary with its ten name trees, indirect dictionary / stream entries, strings, names,
+                booleans, integers, numbers, arbitrary arrays, arbitrary dictionaries and streams (direct),
+                arrays of dictionaries, /Contents (a stream or an array of streams), /Resources.
   * `render`    the object graph and the catalog dictionary of a document: required /Type, /Pages, /Count,
                 /Kids; /Parent (a reference) on every non-root node and page, absent from the root and from
                 templates; kids given as indirect references.
@@ -50,6 +53,59 @@ def kMetadata : Bytes := [0x4D, 0x65, 0x74, 0x61, 0x64, 0x61, 0x74, 0x61]
 def kOpenAction : Bytes := [0x4F, 0x70, 0x65, 0x6E, 0x41, 0x63, 0x74, 0x69, 0x6F, 0x6E]
 def kNums : Bytes := [0x4E, 0x75, 0x6D, 0x73]
 def kLimits : Bytes := [0x4C, 0x69, 0x6D, 0x69, 0x74, 0x73]
+/- the remaining keys of the shipped page, template, catalog, resources and name-dictionary types -/
+def kAA : Bytes := [0x41, 0x41]
+def kAF : Bytes := [0x41, 0x46]
+def kAP : Bytes := [0x41, 0x50]
+def kAcroForm : Bytes := [0x41, 0x63, 0x72, 0x6F, 0x46, 0x6F, 0x72, 0x6D]
+def kAlternatePresentations : Bytes := [0x41, 0x6C, 0x74, 0x65, 0x72, 0x6E, 0x61, 0x74, 0x65, 0x50, 0x72, 0x65, 0x73, 0x65, 0x6E, 0x74, 0x61, 0x74, 0x69, 0x6F, 0x6E, 0x73]
+def kArtBox : Bytes := [0x41, 0x72, 0x74, 0x42, 0x6F, 0x78]
+def kB : Bytes := [0x42]
+def kBleedBox : Bytes := [0x42, 0x6C, 0x65, 0x65, 0x64, 0x42, 0x6F, 0x78]
+def kBoxColorInfo : Bytes := [0x42, 0x6F, 0x78, 0x43, 0x6F, 0x6C, 0x6F, 0x72, 0x49, 0x6E, 0x66, 0x6F]
+def kCollection : Bytes := [0x43, 0x6F, 0x6C, 0x6C, 0x65, 0x63, 0x74, 0x69, 0x6F, 0x6E]
+def kColorSpace : Bytes := [0x43, 0x6F, 0x6C, 0x6F, 0x72, 0x53, 0x70, 0x61, 0x63, 0x65]
+def kContents : Bytes := [0x43, 0x6F, 0x6E, 0x74, 0x65, 0x6E, 0x74, 0x73]
+def kDPart : Bytes := [0x44, 0x50, 0x61, 0x72, 0x74]
+def kDPartRoot : Bytes := [0x44, 0x50, 0x61, 0x72, 0x74, 0x52, 0x6F, 0x6F, 0x74]
+def kDSS : Bytes := [0x44, 0x53, 0x53]
+def kDur : Bytes := [0x44, 0x75, 0x72]
+def kExtGState : Bytes := [0x45, 0x78, 0x74, 0x47, 0x53, 0x74, 0x61, 0x74, 0x65]
+def kExtensions : Bytes := [0x45, 0x78, 0x74, 0x65, 0x6E, 0x73, 0x69, 0x6F, 0x6E, 0x73]
+def kFont : Bytes := [0x46, 0x6F, 0x6E, 0x74]
+def kGroup : Bytes := [0x47, 0x72, 0x6F, 0x75, 0x70]
+def kIDS : Bytes := [0x49, 0x44, 0x53]
+def kJavaScript : Bytes := [0x4A, 0x61, 0x76, 0x61, 0x53, 0x63, 0x72, 0x69, 0x70, 0x74]
+def kLegal : Bytes := [0x4C, 0x65, 0x67, 0x61, 0x6C]
+def kMarkInfo : Bytes := [0x4D, 0x61, 0x72, 0x6B, 0x49, 0x6E, 0x66, 0x6F]
+def kOCProperties : Bytes := [0x4F, 0x43, 0x50, 0x72, 0x6F, 0x70, 0x65, 0x72, 0x74, 0x69, 0x65, 0x73]
+def kOutputIntents : Bytes := [0x4F, 0x75, 0x74, 0x70, 0x75, 0x74, 0x49, 0x6E, 0x74, 0x65, 0x6E, 0x74, 0x73]
+def kPZ : Bytes := [0x50, 0x5A]
+def kPattern : Bytes := [0x50, 0x61, 0x74, 0x74, 0x65, 0x72, 0x6E]
+def kPerms : Bytes := [0x50, 0x65, 0x72, 0x6D, 0x73]
+def kPieceInfo : Bytes := [0x50, 0x69, 0x65, 0x63, 0x65, 0x49, 0x6E, 0x66, 0x6F]
+def kPresSteps : Bytes := [0x50, 0x72, 0x65, 0x73, 0x53, 0x74, 0x65, 0x70, 0x73]
+def kProcSet : Bytes := [0x50, 0x72, 0x6F, 0x63, 0x53, 0x65, 0x74]
+def kProperties : Bytes := [0x50, 0x72, 0x6F, 0x70, 0x65, 0x72, 0x74, 0x69, 0x65, 0x73]
+def kRenditions : Bytes := [0x52, 0x65, 0x6E, 0x64, 0x69, 0x74, 0x69, 0x6F, 0x6E, 0x73]
+def kRequirements : Bytes := [0x52, 0x65, 0x71, 0x75, 0x69, 0x72, 0x65, 0x6D, 0x65, 0x6E, 0x74, 0x73]
+def kResources : Bytes := [0x52, 0x65, 0x73, 0x6F, 0x75, 0x72, 0x63, 0x65, 0x73]
+def kSeparationInfo : Bytes := [0x53, 0x65, 0x70, 0x61, 0x72, 0x61, 0x74, 0x69, 0x6F, 0x6E, 0x49, 0x6E, 0x66, 0x6F]
+def kShading : Bytes := [0x53, 0x68, 0x61, 0x64, 0x69, 0x6E, 0x67]
+def kSpiderInfo : Bytes := [0x53, 0x70, 0x69, 0x64, 0x65, 0x72, 0x49, 0x6E, 0x66, 0x6F]
+def kStructParents : Bytes := [0x53, 0x74, 0x72, 0x75, 0x63, 0x74, 0x50, 0x61, 0x72, 0x65, 0x6E, 0x74, 0x73]
+def kStructTreeRoot : Bytes := [0x53, 0x74, 0x72, 0x75, 0x63, 0x74, 0x54, 0x72, 0x65, 0x65, 0x52, 0x6F, 0x6F, 0x74]
+def kTemplateInstantiated : Bytes := [0x54, 0x65, 0x6D, 0x70, 0x6C, 0x61, 0x74, 0x65, 0x49, 0x6E, 0x73, 0x74, 0x61, 0x6E, 0x74, 0x69, 0x61, 0x74, 0x65, 0x64]
+def kTemplates : Bytes := [0x54, 0x65, 0x6D, 0x70, 0x6C, 0x61, 0x74, 0x65, 0x73]
+def kThreads : Bytes := [0x54, 0x68, 0x72, 0x65, 0x61, 0x64, 0x73]
+def kThumb : Bytes := [0x54, 0x68, 0x75, 0x6D, 0x62]
+def kTrans : Bytes := [0x54, 0x72, 0x61, 0x6E, 0x73]
+def kTrimBox : Bytes := [0x54, 0x72, 0x69, 0x6D, 0x42, 0x6F, 0x78]
+def kURI : Bytes := [0x55, 0x52, 0x49]
+def kURLS : Bytes := [0x55, 0x52, 0x4C, 0x53]
+def kVP : Bytes := [0x56, 0x50]
+def kViewerPreferences : Bytes := [0x56, 0x69, 0x65, 0x77, 0x65, 0x72, 0x50, 0x72, 0x65, 0x66, 0x65, 0x72, 0x65, 0x6E, 0x63, 0x65, 0x73]
+def kXObject : Bytes := [0x58, 0x4F, 0x62, 0x6A, 0x65, 0x63, 0x74]
 def nCatalog : Bytes := [0x43, 0x61, 0x74, 0x61, 0x6C, 0x6F, 0x67]
 def nPage : Bytes := [0x50, 0x61, 0x67, 0x65]
 def nTemplate : Bytes := [0x54, 0x65, 0x6D, 0x70, 0x6C, 0x61, 0x74, 0x65]
@@ -185,6 +241,104 @@ def optEnt (k : Bytes) (v : Option Obj) (rest : ObjL) : ObjL :=
   | none => rest
   | some x => .cons k x rest
 
+/-- a dictionary given by its rows (key, optional value): the present rows in order -/
+def rowsObjL : List (Bytes × Option Obj) → ObjL
+  | [] => .nil
+  | (k, v) :: t => optEnt k v (rowsObjL t)
+
+/-- an arbitrary dictionary value (for the entries the shipped types declare as "a dictionary" without entries):
+    empty, or one entry with an arbitrary object as value -/
+inductive GDict where
+  | empty
+  | one (k : Bytes) (v : Obj)
+deriving Repr, Inhabited
+
+def GDict.objl : GDict → ObjL
+  | .empty => .nil
+  | .one k v => .cons k v .nil
+
+def GDict.obj (g : GDict) : Obj := .dict g.objl
+
+/-- an arbitrary stream value, given directly -/
+structure GStream where
+  dict : GDict
+  data : Bytes
+deriving Repr, Inhabited
+
+def GStream.obj (s : GStream) : Obj := .stream s.dict.objl 0 s.data
+
+/-- /Contents: a stream, or an array of streams -/
+inductive Contents where
+  | one (s : GStream)
+  | many (l : List GStream)
+deriving Repr, Inhabited
+
+def Contents.obj : Contents → Obj
+  | .one s => s.obj
+  | .many l => .arr (arrOf (l.map GStream.obj))
+
+/-- an array of arbitrary objects -/
+def arrObj (xs : List Obj) : Obj := .arr (arrOf xs)
+/-- an array of references -/
+def refsObj (rs : List Nat) : Obj := arrObj (rs.map fun r => Obj.ref r 0)
+/-- an array of dictionaries (/AF) -/
+def afObj (l : List GDict) : Obj := arrObj (l.map GDict.obj)
+def refObj (i : Nat) : Obj := .ref i 0
+
+/-- /Resources: seven dictionaries and the /ProcSet array, all optional -/
+structure Resources where
+  colorSpace : Option GDict
+  extGState : Option GDict
+  font : Option GDict
+  pattern : Option GDict
+  procSet : Option (List Obj)
+  properties : Option GDict
+  shading : Option GDict
+  xObject : Option GDict
+deriving Repr, Inhabited
+
+def Resources.rows (r : Resources) : List (Bytes × Option Obj) :=
+  [(kColorSpace, r.colorSpace.map GDict.obj), (kExtGState, r.extGState.map GDict.obj), (kFont, r.font.map GDict.obj),
+   (kPattern, r.pattern.map GDict.obj), (kProcSet, r.procSet.map arrObj), (kProperties, r.properties.map GDict.obj),
+   (kShading, r.shading.map GDict.obj), (kXObject, r.xObject.map GDict.obj)]
+
+def resourceKeys : List Bytes :=
+  [kColorSpace, kExtGState, kFont, kPattern, kProcSet, kProperties, kShading, kXObject]
+
+def Resources.obj (r : Resources) : Obj := .dict (rowsObjL r.rows)
+
+/-- the optional entries of a page or template beyond the first menu: every remaining entry of
+    `mk_generic_page_entries` (src/pdf_lib/page.rs) and /B (rendered on pages only: templates do not declare it) -/
+structure PageExtra where
+  aa : Option GDict
+  af : Option (List GDict)            -- /AF: an array of dictionaries
+  artBox : Option Rect
+  b : Option (List Obj)               -- /B: an array (pages only)
+  bleedBox : Option Rect
+  boxColorInfo : Option GDict
+  contents : Option Contents
+  dPart : Option GDict
+  dur : Option Num
+  group : Option GDict
+  metadata : Option GStream
+  outputIntents : Option (List Obj)
+  pz : Option Num
+  pieceInfo : Option GDict
+  presSteps : Option GDict
+  resources : Option Resources
+  separationInfo : Option GDict
+  structParents : Option Int
+  templateInstantiated : Option Bytes  -- a name
+  thumb : Option GStream
+  trans : Option GDict
+  trimBox : Option Rect
+  vp : Option (List Obj)
+deriving Repr, Inhabited
+
+def PageExtra.none : PageExtra :=
+  ⟨.none, .none, .none, .none, .none, .none, .none, .none, .none, .none, .none, .none, .none, .none, .none, .none,
+   .none, .none, .none, .none, .none, .none, .none⟩
+
 /-- optional entries of a page or template -/
 structure PageOpts where
   annots : Option (List Nat)      -- /Annots: an array (here: of references)
@@ -195,11 +349,50 @@ structure PageOpts where
   rotate : Option Int
   tabs : Option (Fin 5)           -- /Tabs: one of `tabOrders`
   userUnit : Option Num
+  x : PageExtra
 deriving Repr, Inhabited
 
-def PageOpts.none : PageOpts := ⟨.none, .none, .none, .none, .none, .none, .none, .none⟩
+def PageOpts.none : PageOpts := ⟨.none, .none, .none, .none, .none, .none, .none, .none, PageExtra.none⟩
 
 def nameAt (l : List Bytes) (i : Nat) : Obj := .name (l.getD i [])
+
+/-- the optional entries of the catalog beyond the first menu: every remaining entry of `catalog_type`
+    (src/pdf_lib/catalog.rs) and the remaining eight name trees of `name_dictionary` -/
+structure CatExtra where
+  aa : Option GDict
+  af : Option (List GDict)
+  acroForm : Option GDict
+  collection : Option GDict
+  dPartRoot : Option GDict
+  dss : Option GDict
+  dests : Option Nat                          -- /Dests: reference to a dictionary (object number given)
+  extensions : Option GDict
+  legal : Option GDict
+  markInfo : Option GDict
+  ocProperties : Option GDict
+  outputIntents : Option (List Obj)
+  perms : Option GDict
+  pieceInfo : Option GDict
+  requirements : Option (List Obj)
+  spiderInfo : Option GDict
+  structTreeRoot : Option GDict
+  threads : Option (List Obj)
+  uri : Option GDict
+  viewerPreferences : Option GDict
+  -- /Names: the other name trees
+  ap : Option (Tree Bytes)
+  alternatePresentations : Option (Tree Bytes)
+  ids : Option (Tree Bytes)
+  javaScript : Option (Tree Bytes)
+  pagesTree : Option (Tree Bytes)
+  renditions : Option (Tree Bytes)
+  templates : Option (Tree Bytes)
+  urls : Option (Tree Bytes)
+deriving Repr, Inhabited
+
+def CatExtra.none : CatExtra :=
+  ⟨.none, .none, .none, .none, .none, .none, .none, .none, .none, .none, .none, .none, .none, .none, .none, .none,
+   .none, .none, .none, .none, .none, .none, .none, .none, .none, .none, .none, .none⟩
 
 /-- optional entries of the catalog -/
 structure CatOpts where
@@ -214,9 +407,11 @@ structure CatOpts where
   pageLayout : Option (Fin 6)
   pageMode : Option (Fin 6)
   version : Option Bytes                      -- /Version: a name
+  x : CatExtra
 deriving Repr, Inhabited
 
-def CatOpts.none : CatOpts := ⟨.none, .none, .none, .none, .none, .none, .none, .none, .none, .none, .none⟩
+def CatOpts.none : CatOpts :=
+  ⟨.none, .none, .none, .none, .none, .none, .none, .none, .none, .none, .none, CatExtra.none⟩
 
 /-! ### the page tree -/
 
@@ -255,20 +450,51 @@ def Nodes.refs : Nodes → List Obj
   | .nil => []
   | .cons n t => Obj.ref n.id 0 :: t.refs
 
-/-- the generic page entries, keys in byte order (Annots < CropBox < ID < LastModified < MediaBox <
-    [Parent] < Rotate < Tabs < Type < UserUnit) -/
-def pageDict (o : PageOpts) (parent : Option Obj) (typ : Bytes) : Obj :=
-  .dict
-    (optEnt kAnnots (o.annots.map fun rs => .arr (arrOf (rs.map fun r => Obj.ref r 0)))
-    (optEnt kCropBox (o.cropBox.map Rect.obj)
-    (optEnt kID (o.id.map Obj.str)
-    (optEnt kLastModified (o.lastModified.map Date.obj)
-    (optEnt kMediaBox (o.mediaBox.map Rect.obj)
-    (optEnt kParent parent
-    (optEnt kRotate (o.rotate.map Obj.int)
-    (optEnt kTabs (o.tabs.map fun i => nameAt tabOrders i.val)
-    (.cons kType (.name typ)
-    (optEnt kUserUnit (o.userUnit.map Num.obj) .nil))))))))))
+def tabObj (i : Fin 5) : Obj := nameAt tabOrders i.val
+
+/-- the rows of a page or template dictionary, keys in byte order; /B on pages only -/
+def pageRows (o : PageOpts) (parent : Option Obj) (typ : Bytes) : List (Bytes × Option Obj) :=
+  [(kAA, o.x.aa.map GDict.obj),
+   (kAF, o.x.af.map afObj),
+   (kAnnots, o.annots.map refsObj),
+   (kArtBox, o.x.artBox.map Rect.obj),
+   (kB, if typ = nPage then o.x.b.map arrObj else none),
+   (kBleedBox, o.x.bleedBox.map Rect.obj),
+   (kBoxColorInfo, o.x.boxColorInfo.map GDict.obj),
+   (kContents, o.x.contents.map Contents.obj),
+   (kCropBox, o.cropBox.map Rect.obj),
+   (kDPart, o.x.dPart.map GDict.obj),
+   (kDur, o.x.dur.map Num.obj),
+   (kGroup, o.x.group.map GDict.obj),
+   (kID, o.id.map Obj.str),
+   (kLastModified, o.lastModified.map Date.obj),
+   (kMediaBox, o.mediaBox.map Rect.obj),
+   (kMetadata, o.x.metadata.map GStream.obj),
+   (kOutputIntents, o.x.outputIntents.map arrObj),
+   (kPZ, o.x.pz.map Num.obj),
+   (kParent, parent),
+   (kPieceInfo, o.x.pieceInfo.map GDict.obj),
+   (kPresSteps, o.x.presSteps.map GDict.obj),
+   (kResources, o.x.resources.map Resources.obj),
+   (kRotate, o.rotate.map Obj.int),
+   (kSeparationInfo, o.x.separationInfo.map GDict.obj),
+   (kStructParents, o.x.structParents.map Obj.int),
+   (kTabs, o.tabs.map tabObj),
+   (kTemplateInstantiated, o.x.templateInstantiated.map Obj.name),
+   (kThumb, o.x.thumb.map GStream.obj),
+   (kTrans, o.x.trans.map GDict.obj),
+   (kTrimBox, o.x.trimBox.map Rect.obj),
+   (kType, some (.name typ)),
+   (kUserUnit, o.userUnit.map Num.obj),
+   (kVP, o.x.vp.map arrObj)]
+
+def pageKeys : List Bytes :=
+  [kAA, kAF, kAnnots, kArtBox, kB, kBleedBox, kBoxColorInfo, kContents, kCropBox, kDPart, kDur, kGroup, kID,
+   kLastModified, kMediaBox, kMetadata, kOutputIntents, kPZ, kParent, kPieceInfo, kPresSteps, kResources, kRotate,
+   kSeparationInfo, kStructParents, kTabs, kTemplateInstantiated, kThumb, kTrans, kTrimBox, kType, kUserUnit, kVP]
+
+/-- the dictionary of a page (`typ` = Page, with /Parent) or template (`typ` = Template, without) -/
+def pageDict (o : PageOpts) (parent : Option Obj) (typ : Bytes) : Obj := .dict (rowsObjL (pageRows o parent typ))
 
 /-- a page-tree node dictionary (Count < Kids < [Parent] < Type) -/
 def nodeDict (count : Int) (kids : Nodes) (parent : Option Obj) : Obj :=
@@ -297,41 +523,83 @@ end
 
 def strObj (s : Bytes) : Obj := .str s
 
-def namesDict (c : CatOpts) : Option Obj :=
-  match c.dests, c.embeddedFiles with
-  | none, none => none
-  | d, e =>
-    some (.dict (optEnt kDests (d.map (Tree.obj kNamesKey strObj))
-                (optEnt kEmbeddedFiles (e.map (Tree.obj kNamesKey strObj)) .nil)))
+/-- the rows of the name dictionary: the ten name trees of `name_dictionary`, keys in byte order -/
+def namesRows (c : CatOpts) : List (Bytes × Option Obj) :=
+  [(kAP, c.x.ap.map (Tree.obj kNamesKey strObj)),
+   (kAlternatePresentations, c.x.alternatePresentations.map (Tree.obj kNamesKey strObj)),
+   (kDests, c.dests.map (Tree.obj kNamesKey strObj)),
+   (kEmbeddedFiles, c.embeddedFiles.map (Tree.obj kNamesKey strObj)),
+   (kIDS, c.x.ids.map (Tree.obj kNamesKey strObj)),
+   (kJavaScript, c.x.javaScript.map (Tree.obj kNamesKey strObj)),
+   (kPages, c.x.pagesTree.map (Tree.obj kNamesKey strObj)),
+   (kRenditions, c.x.renditions.map (Tree.obj kNamesKey strObj)),
+   (kTemplates, c.x.templates.map (Tree.obj kNamesKey strObj)),
+   (kURLS, c.x.urls.map (Tree.obj kNamesKey strObj))]
 
-/-- the catalog dictionary (Lang < Metadata < Names < NeedsRendering < OpenAction < Outlines < PageLabels <
-    PageLayout < PageMode < Pages < Type < Version) -/
-def catalogDict (d : Doc) : Obj :=
+/-- /Names is written when at least one name tree is given -/
+def namesDict (c : CatOpts) : Option Obj :=
+  if (namesRows c).all (fun r => r.2.isNone) then none else some (.dict (rowsObjL (namesRows c)))
+
+def openActionObj (a : Bool) : Obj := if a then .arr .nil else .dict .nil
+def numTreeObj (t : Tree Int) : Obj := Tree.obj kNums Obj.int t
+def layoutObj (i : Fin 6) : Obj := nameAt pageLayouts i.val
+def modeObj (i : Fin 6) : Obj := nameAt pageModes i.val
+
+/-- the rows of the catalog dictionary, keys in byte order -/
+def catRows (d : Doc) : List (Bytes × Option Obj) :=
   let c := d.cat
-  .dict
-    (optEnt kLang (c.lang.map Obj.str)
-    (optEnt kMetadata (c.metadata.map fun i => Obj.ref i 0)
-    (optEnt kNames (namesDict c)
-    (optEnt kNeedsRendering (c.needsRendering.map Obj.bool)
-    (optEnt kOpenAction (c.openAction.map fun a => if a then .arr .nil else .dict .nil)
-    (optEnt kOutlines (c.outlines.map fun i => Obj.ref i 0)
-    (optEnt kPageLabels (c.pageLabels.map (Tree.obj kNums Obj.int))
-    (optEnt kPageLayout (c.pageLayout.map fun i => nameAt pageLayouts i.val)
-    (optEnt kPageMode (c.pageMode.map fun i => nameAt pageModes i.val)
-    (.cons kPages (.ref d.rootId 0)
-    (.cons kType (.name nCatalog)
-    (optEnt kVersion (c.version.map Obj.name) .nil))))))))))))
+  [(kAA, c.x.aa.map GDict.obj),
+   (kAF, c.x.af.map afObj),
+   (kAcroForm, c.x.acroForm.map GDict.obj),
+   (kCollection, c.x.collection.map GDict.obj),
+   (kDPartRoot, c.x.dPartRoot.map GDict.obj),
+   (kDSS, c.x.dss.map GDict.obj),
+   (kDests, c.x.dests.map refObj),
+   (kExtensions, c.x.extensions.map GDict.obj),
+   (kLang, c.lang.map Obj.str),
+   (kLegal, c.x.legal.map GDict.obj),
+   (kMarkInfo, c.x.markInfo.map GDict.obj),
+   (kMetadata, c.metadata.map refObj),
+   (kNames, namesDict c),
+   (kNeedsRendering, c.needsRendering.map Obj.bool),
+   (kOCProperties, c.x.ocProperties.map GDict.obj),
+   (kOpenAction, c.openAction.map openActionObj),
+   (kOutlines, c.outlines.map refObj),
+   (kOutputIntents, c.x.outputIntents.map arrObj),
+   (kPageLabels, c.pageLabels.map numTreeObj),
+   (kPageLayout, c.pageLayout.map layoutObj),
+   (kPageMode, c.pageMode.map modeObj),
+   (kPages, some (.ref d.rootId 0)),
+   (kPerms, c.x.perms.map GDict.obj),
+   (kPieceInfo, c.x.pieceInfo.map GDict.obj),
+   (kRequirements, c.x.requirements.map arrObj),
+   (kSpiderInfo, c.x.spiderInfo.map GDict.obj),
+   (kStructTreeRoot, c.x.structTreeRoot.map GDict.obj),
+   (kThreads, c.x.threads.map arrObj),
+   (kType, some (.name nCatalog)),
+   (kURI, c.x.uri.map GDict.obj),
+   (kVersion, c.version.map Obj.name),
+   (kViewerPreferences, c.x.viewerPreferences.map GDict.obj)]
+
+def catKeys : List Bytes :=
+  [kAA, kAF, kAcroForm, kCollection, kDPartRoot, kDSS, kDests, kExtensions, kLang, kLegal, kMarkInfo, kMetadata, kNames,
+   kNeedsRendering, kOCProperties, kOpenAction, kOutlines, kOutputIntents, kPageLabels, kPageLayout, kPageMode, kPages,
+   kPerms, kPieceInfo, kRequirements, kSpiderInfo, kStructTreeRoot, kThreads, kType, kURI, kVersion, kViewerPreferences]
+
+/-- the catalog dictionary -/
+def catalogDict (d : Doc) : Obj := .dict (rowsObjL (catRows d))
 
 def optDef (i : Option Nat) (o : Obj) : Graph :=
   match i with
   | none => []
   | some n => [((n, 0), o)]
 
-/-- the indirect objects of the document: the root node, the subtrees, and the two auxiliary objects the
-    catalog may refer to -/
+/-- the indirect objects of the document: the root node, the subtrees, and the three auxiliary objects the
+    catalog may refer to (/Outlines, /Metadata, /Dests) -/
 def Doc.graph (d : Doc) : Graph :=
   ((d.rootId, 0), nodeDict d.count d.kids none) :: d.kids.defs d.rootId
     ++ optDef d.cat.outlines (.dict .nil) ++ optDef d.cat.metadata (.stream .nil 0 [])
+    ++ optDef d.cat.x.dests (.dict .nil)
 
 def render (d : Doc) : Graph × Obj := (d.graph, catalogDict d)
 
@@ -350,7 +618,8 @@ def optId : Option Nat → List Nat
   | none => []
   | some i => [i]
 
-def Doc.ids (d : Doc) : List Nat := d.rootId :: d.kids.ids ++ optId d.cat.outlines ++ optId d.cat.metadata
+def Doc.ids (d : Doc) : List Nat :=
+  d.rootId :: d.kids.ids ++ optId d.cat.outlines ++ optId d.cat.metadata ++ optId d.cat.x.dests
 
 def nodupB : List Nat → Bool
   | [] => true
@@ -376,6 +645,11 @@ inductive ValKind where
   | name | str | bool | int | number
   | rect | date
   | array                         -- any array
+  | dict                          -- any dictionary
+  | stream                        -- any stream
+  | arrayOfDict                   -- an array of dictionaries
+  | contents                      -- a stream, or an array of streams
+  | resources                     -- a dictionary whose entries /ColorSpace ... /XObject are dictionaries, /ProcSet an array
   | arrayOrDict
   | rootRef | kids | parentRef    -- structural entries: mutated by the structural mutations only
   | refDict | refStream           -- an indirect reference (to a dictionary / stream)
@@ -393,18 +667,29 @@ def forbiddenKeys : DictKind → List Bytes
   | .root | .tmpl => [kParent]
   | _ => []
 
+/-- every entry of `mk_generic_page_entries` -/
 def pageMenu : List (Bytes × ValKind) :=
-  [(kAnnots, .array), (kCropBox, .rect), (kID, .str), (kLastModified, .date), (kMediaBox, .rect),
-   (kRotate, .int), (kTabs, .nameIn tabOrders), (kUserUnit, .number)]
+  [(kAA, .dict), (kAF, .arrayOfDict), (kAnnots, .array), (kArtBox, .rect), (kBleedBox, .rect), (kBoxColorInfo, .dict),
+   (kContents, .contents), (kCropBox, .rect), (kDPart, .dict), (kDur, .number), (kGroup, .dict), (kID, .str),
+   (kLastModified, .date), (kMediaBox, .rect), (kMetadata, .stream), (kOutputIntents, .array), (kPZ, .number),
+   (kPieceInfo, .dict), (kPresSteps, .dict), (kResources, .resources), (kRotate, .int), (kSeparationInfo, .dict),
+   (kStructParents, .int), (kTabs, .nameIn tabOrders), (kTemplateInstantiated, .name), (kThumb, .stream),
+   (kTrans, .dict), (kTrimBox, .rect), (kUserUnit, .number), (kVP, .array)]
 
+/-- every entry of the shipped type of each dictionary kind -/
 def keyTable : DictKind → List (Bytes × ValKind)
   | .catalog =>
-    [(kType, .nameIs nCatalog), (kPages, .rootRef), (kLang, .str), (kMetadata, .refStream), (kNames, .nameDict),
-     (kNeedsRendering, .bool), (kOpenAction, .arrayOrDict), (kOutlines, .refDict), (kPageLabels, .numTree),
-     (kPageLayout, .nameIn pageLayouts), (kPageMode, .nameIn pageModes), (kVersion, .name)]
+    [(kType, .nameIs nCatalog), (kPages, .rootRef),
+     (kAA, .dict), (kAF, .arrayOfDict), (kAcroForm, .dict), (kCollection, .dict), (kDPartRoot, .dict), (kDSS, .dict),
+     (kDests, .refDict), (kExtensions, .dict), (kLang, .str), (kLegal, .dict), (kMarkInfo, .dict),
+     (kMetadata, .refStream), (kNames, .nameDict), (kNeedsRendering, .bool), (kOCProperties, .dict),
+     (kOpenAction, .arrayOrDict), (kOutlines, .refDict), (kOutputIntents, .array), (kPageLabels, .numTree),
+     (kPageLayout, .nameIn pageLayouts), (kPageMode, .nameIn pageModes), (kPerms, .dict), (kPieceInfo, .dict),
+     (kRequirements, .array), (kSpiderInfo, .dict), (kStructTreeRoot, .dict), (kThreads, .array), (kURI, .dict),
+     (kVersion, .name), (kViewerPreferences, .dict)]
   | .root => [(kType, .nameIs kPages), (kCount, .int), (kKids, .kids)]
   | .node => [(kType, .nameIs kPages), (kCount, .int), (kKids, .kids), (kParent, .parentRef)]
-  | .page => [(kType, .nameIs nPage), (kParent, .parentRef)] ++ pageMenu
+  | .page => [(kType, .nameIs nPage), (kParent, .parentRef), (kB, .array)] ++ pageMenu
   | .tmpl => [(kType, .nameIs nTemplate)] ++ pageMenu
 
 def lookupKey {α : Type} : List (Bytes × α) → Bytes → Option α
@@ -474,7 +759,23 @@ def isTreeNode (leafKey : Bytes) (isKey : Obj → Bool) : Obj → Bool
     leafOK && limitsOK && kidsOK && ((kvs.get leafKey).isSome != (kvs.get kKids).isSome)
   | _ => false
 
-def nameTreeKeys : List Bytes := [kDests, kEmbeddedFiles]
+def nameTreeKeys : List Bytes :=
+  [kAP, kAlternatePresentations, kDests, kEmbeddedFiles, kIDS, kJavaScript, kPages, kRenditions, kTemplates, kURLS]
+
+/-- the entries of /Resources that are dictionaries (/ProcSet is an array) -/
+def resourceDictKeys : List Bytes := [kColorSpace, kExtGState, kFont, kPattern, kProperties, kShading, kXObject]
+
+def isDictO : Obj → Bool
+  | .dict _ => true
+  | _ => false
+
+def isArrO : Obj → Bool
+  | .arr _ => true
+  | _ => false
+
+def isStreamO : Obj → Bool
+  | .stream _ _ _ => true
+  | _ => false
 
 /-- does the DIRECT value `v` have the type the rules give it? (references are not followed: the
     mutations only insert direct values, see `Mutation.valid`) -/
@@ -489,6 +790,18 @@ def fitsKind : ValKind → Obj → Bool
   | .rect, .arr xs => decide (xs.vals.length = 4) && xs.vals.all isNum
   | .date, .str s => isDate s
   | .array, .arr _ => true
+  | .dict, .dict _ => true
+  | .stream, .stream _ _ _ => true
+  | .arrayOfDict, .arr xs => xs.vals.all isDictO
+  | .contents, .stream _ _ _ => true
+  | .contents, .arr xs => xs.vals.all isStreamO
+  | .resources, .dict kvs =>
+    (resourceDictKeys.all fun k => match kvs.get k with
+      | none => true
+      | some t => isDictO t) &&
+    (match kvs.get kProcSet with
+      | none => true
+      | some t => isArrO t)
   | .arrayOrDict, .arr _ => true
   | .arrayOrDict, .dict _ => true
   | .numTree, v => isTreeNode kNums Obj.isInt v
@@ -550,7 +863,8 @@ def kindChange (k : DictKind) (key : Bytes) (v : Obj) : Bool :=
   (k == .node || k == .page || k == .tmpl) && decide (key = kType) &&
     [Obj.name kPages, Obj.name nPage, Obj.name nTemplate].contains v
 
-/-- Does the replacement value give an entry of the name dictionary BY REFERENCE?  The rules judge direct values
+/-- Does the replacement value give an entry of the name dictionary (or of /Resources, or an element of an array of
+    dictionaries / of streams) BY REFERENCE?  The rules judge direct values
     only (`fitsKind` does not follow references); `/Names << /Dests 7 0 R >>` is not a value of the wrong type but
     a reference whose target decides (the shipped name-tree predicate is applied to the target: a page-tree node
     `<< /Type /Pages /Kids [refs] ... >>` passes it as an intermediate name-tree node, see
@@ -559,6 +873,11 @@ def refEntry : ValKind → Obj → Bool
   | .nameDict, .dict kvs => nameTreeKeys.any fun k => match kvs.get k with
     | some t => t.isRef
     | none => false
+  | .resources, .dict kvs => (kProcSet :: resourceDictKeys).any fun k => match kvs.get k with
+    | some t => t.isRef
+    | none => false
+  | .arrayOfDict, .arr xs => xs.vals.any Obj.isRef
+  | .contents, .arr xs => xs.vals.any Obj.isRef
   | _, _ => false
 
 /-- is `m` a violation of exactly one rule at an existing position of `d`? -/
@@ -652,5 +971,54 @@ def mutate (m : Mutation) (d : Doc) : Graph × Obj :=
           | _ => kvs) r
       | _, _ => r
     | none => r
+
+/-! ### an example document with EVERY optional entry (used by the non-vacuity examples of the theorems and as the
+  third fixed document of the exhaustive stream of Driver/C10.lean) -/
+
+def exRect : Rect := ⟨.int 0, .int 0, .real 612 1, .int 792⟩
+def exDate : Date :=
+  ⟨⟨2020, by decide⟩, some ⟨11, by decide⟩, some ⟨30, by decide⟩, some ⟨23, by decide⟩, some ⟨59, by decide⟩,
+   some ⟨59, by decide⟩, some ⟨⟨1, by decide⟩, some ⟨8, by decide⟩, some ⟨0, by decide⟩, true⟩⟩
+def exDict : GDict := .one [0x4B] (.int 1)                -- << /K 1 >>
+def exStream : GStream := ⟨.one [0x4C] (.int 3), [0x61, 0x62, 0x63]⟩
+def exArr : List Obj := [.int 1, .name [0x58], .ref 950 0, .dict .nil]
+def exResources : Resources :=
+  ⟨some exDict, some .empty, some (.one [0x46, 0x31] (.ref 951 0)), some exDict, some [.name [0x50, 0x44, 0x46]],
+   some .empty, some exDict, some (.one [0x49, 0x6D] (.ref 952 0))⟩
+def exPageExtra : PageExtra :=
+  { aa := some exDict, af := some [exDict, .empty], artBox := some exRect, b := some [.ref 953 0, .int 2],
+    bleedBox := some exRect, boxColorInfo := some .empty, contents := some (.many [exStream, ⟨.empty, []⟩]),
+    dPart := some exDict, dur := some (.real 5 2), group := some exDict, metadata := some exStream,
+    outputIntents := some exArr, pz := some (.int 2), pieceInfo := some exDict, presSteps := some .empty,
+    resources := some exResources, separationInfo := some exDict, structParents := some 7,
+    templateInstantiated := some [0x54, 0x31], thumb := some ⟨.empty, [0x00]⟩, trans := some exDict,
+    trimBox := some exRect, vp := some [] }
+/-- /Annots [901 0 R] /CropBox /ID (id) /LastModified (D:20201231235959-08'00') /MediaBox /Rotate 90 /Tabs /S
+    /UserUnit 1.5 and every further entry of the page type -/
+def exPageOpts : PageOpts :=
+  ⟨some [901], some exRect, some [0x69, 0x64], some exDate, some exRect, some 90, some ⟨2, by decide⟩, some (.real 3 2),
+   exPageExtra⟩
+def exTree : Tree Bytes := .leaf [([0x61], 801)] none
+def exCatExtra : CatExtra :=
+  { aa := some exDict, af := some [exDict], acroForm := some exDict, collection := some .empty,
+    dPartRoot := some exDict, dss := some exDict, dests := some 22, extensions := some .empty, legal := some exDict,
+    markInfo := some (.one [0x4D] (.bool true)), ocProperties := some exDict, outputIntents := some exArr,
+    perms := some exDict, pieceInfo := some .empty, requirements := some [.dict .nil], spiderInfo := some exDict,
+    structTreeRoot := some exDict, threads := some [.ref 954 0], uri := some exDict,
+    viewerPreferences := some (.one [0x48] (.bool false)),
+    ap := some exTree, alternatePresentations := some (.inner [] none), ids := some exTree,
+    javaScript := some (.inner [806] (some ([0x61], [0x7A]))), pagesTree := some exTree, renditions := some exTree,
+    templates := some (.leaf [] none), urls := some exTree }
+/-- /Lang (en) /Metadata 20 0 R /Names << ten name trees >> /NeedsRendering true /OpenAction [] /Outlines 21 0 R
+    /Dests 22 0 R /PageLabels leaf+limits /PageLayout /OneColumn /PageMode /FullScreen /Version /1.7 and every
+    further entry of the catalog type -/
+def exCatOpts : CatOpts :=
+  ⟨some [0x65, 0x6E], some 20, some exTree, some (.inner [802] (some ([0x61], [0x62]))),
+   some true, some true, some 21, some (.leaf [(0, 803), (5, 804)] (some (0, 5))), some ⟨1, by decide⟩,
+   some ⟨3, by decide⟩, some [0x31, 0x2E, 0x37], exCatExtra⟩
+/-- root 1 -> page 2 (all entries), template 3 (all entries), node 4 -> page 5 -/
+def exDocFull : Doc :=
+  ⟨exCatOpts, 1, 3, Nodes.ofList [.page 2 exPageOpts, .tmpl 3 exPageOpts,
+    .pages 4 1 (Nodes.ofList [.page 5 PageOpts.none])]⟩
 
 end Parsley.CatalogRules
